@@ -315,6 +315,14 @@ def run_variant(pid, cfg, variant, tier, seed, workdir, scale, jobs, only=None, 
                 res['crashes'].append(dict(case=g, key='abort:' + crash_key(et, rc), stderr=et[-6000:], variant=variant))
             pr.resumes += 1
             nxt = g + pr.step
+            # a failure that repeats on case after case is one defect: stop feeding it (hangs are expensive to confirm)
+            lastkey = res['crashes'][-1]['key']
+            same = sum(1 for c in res['crashes'] if c['key'] == lastkey)
+            if (lastkey.startswith('hang:') and same >= 2) or same >= cfg.get('max_same_crash', 12):
+                if nxt < pr.end and only is None:
+                    res['abandoned'] = res.get('abandoned', 0) + 1
+                live.remove(pr)
+                continue
             if nxt >= pr.end or pr.resumes > cfg.get('max_resumes', 25) or only is not None:
                 if nxt < pr.end and only is None:
                     res['infra'].append('process %s: more than %d deaths, range abandoned at case %d' % (pr.tag, pr.resumes - 1, g))
